@@ -13,9 +13,17 @@ still point at the right lines.
   C3  double negation      `not not c` in a test position -> `c`
   C4  guard clauses        `if c: ...jump else: REST` -> `if c: ...jump` followed by REST (jump = return / raise / continue /
                            break as the last statement); when only the else branch jumps the test is negated first
-  C5  single-use temps     `t = E` immediately followed by a statement that reads t once, before anything with a possible effect is
+  C5  single-use temps     `t = E` immediately followed by a statement (or the test of an `if` / the iterable of a `for`) that reads t once, before anything with a possible effect is
                            evaluated in it -> E written in place (t bound once, read once).  Attribute reads and subscripts of
                            plain names are taken to be effect-free and independent of E - the one assumption made here.
+  C7  local annotations    `x: T = E` on a plain local name inside a function -> `x = E` (the annotation of a local is never evaluated
+                           or stored, PEP 526)
+  C6  named constants      a name bound exactly once in the module, at module level, to a number / string / bool / None literal or
+                           to a tuple of such literals, never declared `global` and never stored to anywhere else in the module, is
+                           replaced by the literal wherever a function reads it as a global (`_TYPE_INDEX = 0 ... item[_TYPE_INDEX]`
+                           -> `item[0]`).  A tuple is immutable, so writing it out at each use is not observable except through
+                           `is`; the binding itself stays.  (Re-binding a module attribute from outside the module - monkey
+                           patching - is outside what any of the rules models.)
 """
 from __future__ import annotations
 
@@ -206,6 +214,21 @@ class _Canon:
                 while i + 1 < len(blk):
                     a, b = blk[i], blk[i + 1]
                     if isinstance(a, ast.Assign) and len(a.targets) == 1 and isinstance(a.targets[0], ast.Name) \
+                            and isinstance(b, (ast.If, ast.For)):
+                        # the test of an `if` / the iterable of a `for` is evaluated once, before anything else of that statement
+                        t = a.targets[0].id
+                        fld = "test" if isinstance(b, ast.If) else "iter"
+                        if stores.get(t) == 1 and loads.get(t) == 1 and t not in special \
+                                and not isinstance(a.value, (ast.Yield, ast.YieldFrom, ast.Await, ast.Lambda, ast.ListComp, ast.GeneratorExp, ast.DictComp, ast.SetComp)) \
+                                and self._reached_first(getattr(b, fld), t) == "found":
+                            setattr(b, fld, self._subst(getattr(b, fld), t, a.value))
+                            del blk[i]
+                            self.n_copy += 1
+                            changed = True
+                            stores[t] = 0
+                            loads[t] = 0
+                            continue
+                    if isinstance(a, ast.Assign) and len(a.targets) == 1 and isinstance(a.targets[0], ast.Name) \
                             and isinstance(b, (ast.Assign, ast.Expr, ast.Return, ast.AugAssign, ast.AnnAssign)) and getattr(b, "value", None) is not None:
                         t = a.targets[0].id
                         if stores.get(t) == 1 and loads.get(t) == 1 and t not in special \
@@ -301,7 +324,76 @@ class _Canon:
             return r if r == "found" else "stop"
         return "stop"
 
+    # ------------------------------------------------------------------ C6
+    @staticmethod
+    def _literal(e):
+        def scalar(x):
+            if isinstance(x, ast.Constant) and (x.value is None or isinstance(x.value, (bool, int, float, str))):
+                return not (isinstance(x.value, str) and len(x.value) > 80)
+            return isinstance(x, ast.UnaryOp) and isinstance(x.op, ast.USub) and isinstance(x.operand, ast.Constant) \
+                and isinstance(x.operand.value, (int, float)) and not isinstance(x.operand.value, bool)
+        return scalar(e) or (isinstance(e, ast.Tuple) and bool(e.elts) and all(scalar(x) for x in e.elts))
+
+    def _named_constants(self, tree: ast.Module):
+        import copy
+        cand = {}
+        for st in tree.body:
+            if isinstance(st, ast.Assign) and len(st.targets) == 1 and isinstance(st.targets[0], ast.Name) and self._literal(st.value):
+                cand.setdefault(st.targets[0].id, []).append(st)
+            elif isinstance(st, ast.AnnAssign) and isinstance(st.target, ast.Name) and st.value is not None and self._literal(st.value):
+                cand.setdefault(st.target.id, []).append(st)
+        if not cand:
+            return
+        stores: Dict[str, int] = {}
+        for n in ast.walk(tree):
+            if isinstance(n, ast.Name) and isinstance(n.ctx, (ast.Store, ast.Del)):
+                stores[n.id] = stores.get(n.id, 0) + 1
+            elif isinstance(n, (ast.Global, ast.Nonlocal)):
+                for nm in n.names:
+                    stores[nm] = stores.get(nm, 0) + 2
+            elif isinstance(n, ast.arg):
+                stores[n.arg] = stores.get(n.arg, 0) + 2
+            elif isinstance(n, (ast.FunctionDef, ast.AsyncFunctionDef, ast.ClassDef)):
+                stores[n.name] = stores.get(n.name, 0) + 2
+            elif isinstance(n, ast.alias):
+                nm = (n.asname or n.name).split(".")[0]
+                stores[nm] = stores.get(nm, 0) + 2
+            elif isinstance(n, ast.ExceptHandler) and n.name:
+                stores[n.name] = stores.get(n.name, 0) + 2
+        consts = {k: (v[0].value) for k, v in cand.items() if len(v) == 1 and stores.get(k, 0) == 1}
+        if not consts:
+            return
+
+        class Sub(ast.NodeTransformer):
+            def visit_Name(self_, n):
+                if isinstance(n.ctx, ast.Load) and n.id in consts:
+                    new = copy.deepcopy(consts[n.id])
+                    for x in ast.walk(new):
+                        ast.copy_location(x, n)
+                    self.n_copy += 1
+                    return new
+                return n
+        for st in tree.body:
+            for fn in ast.walk(st):
+                if isinstance(fn, (ast.FunctionDef, ast.AsyncFunctionDef)):
+                    fn.body = [Sub().visit(b) for b in fn.body]
+
+    # ------------------------------------------------------------------ C7
+    def _local_annotations(self, tree: ast.Module):
+        for fn in ast.walk(tree):
+            if not isinstance(fn, (ast.FunctionDef, ast.AsyncFunctionDef)):
+                continue
+            for blk in self._own_blocks(fn):
+                for i, st in enumerate(blk):
+                    if isinstance(st, ast.AnnAssign) and st.value is not None and isinstance(st.target, ast.Name) and st.simple:
+                        new = ast.Assign(targets=[st.target], value=st.value)
+                        ast.copy_location(new, st)
+                        new.type_comment = None
+                        blk[i] = new
+
     def run(self, tree: ast.Module) -> ast.Module:
+        self._named_constants(tree)
+        self._local_annotations(tree)
         self._negated(tree)
         self._guard_clauses(tree)
         for n in ast.walk(tree):
